@@ -285,6 +285,23 @@ def _wallet_add(sim, m, a):
     return lambda: sim.broker.add_to_balance(t, amt) and None
 
 
+@op("broker.drain_to")
+def _wallet_drain(sim, m, a):
+    """lower the wallet balance of a token to x times its current debt (or supply): a legitimate wallet operation that
+    makes the next cash repay / supply of that token short"""
+    t = _tok(sim, m, a)
+    if t is None:
+        return None
+    target = resolve_amount(sim, m, a.get("amount"), t.name)
+    if isinstance(target, str) or target is None:
+        return None
+    bal = sim.broker.assets[t].balance if t in sim.broker.assets else Decimal(0)
+    if bal <= target:
+        return None
+    cut = bal - target
+    return lambda: sim.broker.subtract_from_balance(t, cut) and None
+
+
 # ------------------------------------------------------------------------------------------------- generation
 TOKENS = (("WETH", 18), ("USDC", 6), ("WBTC", 8), ("DAI", 18), ("USDT", 6), ("LINK", 18), ("WMATIC", 18))
 BASE_PRICE = {"WETH": 1800.0, "USDC": 1.0, "WBTC": 29000.0, "DAI": 0.999, "USDT": 1.001, "LINK": 7.3, "WMATIC": 0.57}
